@@ -133,7 +133,7 @@ impl Case {
     fn parse(line: &str) -> Option<Case> {
         let w = words(line);
         if w.len() < 7 { return None; }
-        let (tmo, imm) = match w[0] { "tmo" | "trk" => (true, false), "wake" | "race" => (false, false), "imm" => (true, true), _ => return None };
+        let (tmo, imm) = match w[0] { "tmo" | "trk" | "sq" => (true, false), "wake" | "race" => (false, false), "imm" => (true, true), _ => return None };
         let kind = match w[2] { "credit" => Kind::Credit(w[3].parse().ok()?), "reconnect" => Kind::Reconnect, _ => return None };
         let window = w[4].parse().ok()?;
         let setup = parse_ops(w[5].strip_prefix("setup=")?)?;
@@ -948,6 +948,127 @@ fn run_watchdog_case(seed: u64) -> WdResult {
     res
 }
 
+
+// ------------------------------------------------------------------------------------------
+// `sq`: several waits one after the other on the SAME control (a producer polling in slices)
+// ------------------------------------------------------------------------------------------
+struct SqCase { kind: Kind, window: u64, setup: Vec<Op>, enabling: Option<Op>, n_timeouts: u32 }
+
+fn gen_sq(rng: &mut Rng) -> SqCase {
+    let w = world(rng);
+    let reconnect = rng.chance(3, 5);
+    let mut setup = w.setup.clone();
+    let mut reason = 0u64;
+    // some harmless history first (also advances, which reset per-file state)
+    for _ in 0..rng.below(3) { setup.push(gen_op(rng, &w, reconnect, true, &mut reason)); }
+    let enabling = if rng.chance(3, 5) {
+        Some(if reconnect {
+            if rng.chance(2, 3) { Op::Res(w.file, w.sent) } else { Op::Cancel(rng.range(1, 9)) }
+        } else {
+            match rng.below(4) { 0 => Op::Cancel(rng.range(1, 9)), 1 => Op::Res(w.file, w.sent), 2 => Op::Adv(other_file(rng, w.file)), _ => Op::Ack(w.file, w.sent) }
+        })
+    } else { None };
+    SqCase { kind: if reconnect { Kind::Reconnect } else { Kind::Credit(w.len) }, window: w.window, setup, enabling, n_timeouts: rng.range(1, 2) as u32 }
+}
+
+struct SqResult { kind: Kind, lines: Vec<(String, String)>, fails: Vec<(String, String, String)> }
+
+/// wait (short deadline, must time out) × n_timeouts, then a wait with a fresh, longer deadline during
+/// which `enabling` (if any) arrives; everything on one control.
+fn run_sq(c: SqCase, seed: u64) -> SqResult {
+    let mut rng = Rng::new(seed);
+    let fam = match c.kind { Kind::Credit(_) => "wake.credit", Kind::Reconnect => "wake.reconnect" };
+    let (k, len) = match &c.kind { Kind::Credit(l) => ("credit", *l), Kind::Reconnect => ("reconnect", 0) };
+    let tc = TransferControl::new(c.window);
+    for op in &c.setup { apply(&tc, op); }
+    let mut res = SqResult { kind: c.kind.clone(), lines: vec![], fails: vec![] };
+    let total = c.n_timeouts + 1;
+    for wi in 0..total {
+        let last = wi + 1 == total;
+        let d = if last { Duration::from_millis(40 + rng.below(80)) } else { Duration::from_millis(1 + rng.below(12)) };
+        let (tx, rx) = mpsc::channel::<(Got, Instant, Instant)>();
+        let waiter = {
+            let (tc, kind) = (tc.clone(), c.kind.clone());
+            std::thread::spawn(move || {
+                let t0 = Instant::now();
+                let deadline = t0 + d;
+                let r = catch(|| match kind {
+                    Kind::Credit(len) => match tc.wait_for_credit(len, deadline) {
+                        Ok(()) => Got::Ok,
+                        Err(CreditError::Cancelled(r)) => Got::Cancelled(r),
+                        Err(CreditError::Timeout) => Got::Timeout,
+                    },
+                    Kind::Reconnect => match tc.wait_for_reconnect(d) {
+                        ReconnectOutcome::ResumeReady(p) => Got::Resume(p.resume_at_offset),
+                        ReconnectOutcome::Cancelled(r) => Got::Cancelled(r),
+                        ReconnectOutcome::Timeout => Got::Timeout,
+                    },
+                });
+                let t1 = Instant::now();
+                let _ = tx.send((r.unwrap_or(Got::Panic), deadline, t1));
+            })
+        };
+        // the enabling op lands somewhere inside the last window
+        let mut op_done: Option<Instant> = None;
+        let mut enabled = false;
+        let mut thr = "-".to_string();
+        if last {
+            if let Some(op) = &c.enabling {
+                std::thread::sleep(Duration::from_micros(rng.below(d.as_micros() as u64 / 2 + 1)));
+                let r = catch(|| apply(&tc, op)).unwrap_or(OpRes::ResumeErr);
+                // does the waiter's condition really hold now? (read off the real object; nobody else changes it,
+                // except the waiter itself taking the staged resume)
+                let (s1, a1) = catch(|| tc.offsets()).unwrap_or((0, 0));
+                let pend = if let OpRes::ResumeOk(o) = r { Some(o) } else { None };
+                if !acceptable(&c.kind, c.window, s1, a1, &catch(|| tc.cancel_reason()).unwrap_or(None), pend).is_empty() {
+                    op_done = Some(Instant::now());
+                }
+                enabled = op_done.is_some();
+                thr = op.show();
+            }
+        }
+        let r = rx.recv_timeout(d + WATCHDOG).ok();
+        let (sent, acked) = catch(|| tc.offsets()).unwrap_or((0, 0));
+        let cancelled = catch(|| tc.is_cancelled()).unwrap_or(true);
+        let fin = format!("{}:{}:{}", sent, acked, if cancelled { 1 } else { 0 });
+        let got = r.as_ref().map(|x| x.0.clone()).unwrap_or(Got::Parked);
+        let line = format!("sq IDX {} {} {} setup={} thr={} order=- got={} fin={}", k, len, c.window, show_ops(&c.setup), thr, got.show(), fin);
+        let nth = format!("wait {} of {} on the same control ({} ms deadline)", wi + 1, total, d.as_millis());
+        match &r {
+            None => {
+                res.fails.push((format!("{}.timeout.never", fam), format!("{}: no return within deadline + 10 s", nth), line.clone()));
+                let _ = catch(|| tc.cancel("cleanup"));
+                let _ = rx.recv_timeout(WATCHDOG);
+            }
+            Some((g, deadline, t1)) => {
+                if *g == Got::Timeout && t1 < deadline {
+                    res.fails.push((format!("{}.timeout.early", fam), format!("{}: Timeout returned {} ms before this wait's own deadline", nth, deadline.saturating_duration_since(*t1).as_millis()), line.clone()));
+                } else if *g == Got::Timeout && op_done.map(|t| t < *deadline).unwrap_or(false) {
+                    res.fails.push((format!("{}.timeout.instead_of_value", fam), format!("{}: {} completed before the deadline, the wait still returned Timeout", nth, thr), line.clone()));
+                } else if *g != Got::Timeout && !enabled {
+                    res.fails.push((format!("{}.timeout.wrong_value", fam), format!("{}: condition never held, wait returned {}", nth, g.show()), line.clone()));
+                } else if *g == Got::Panic {
+                    res.fails.push((format!("{}.panic", fam), format!("{}: the wait panicked", nth), line.clone()));
+                }
+            }
+        }
+        if r.is_some() { let _ = waiter.join(); }
+        res.lines.push((line, format!("IDX {} {}", got.show(), fin)));
+        if r.is_none() { break; }
+    }
+    res
+}
+
+fn log_sq(out: &mut Out, r: SqResult, idx: &mut u64) {
+    for (sig, detail, line) in &r.fails { out.oracle_fail(sig, detail, &[line.clone()]); }
+    let kind = match r.kind { Kind::Credit(_) => "credit", Kind::Reconnect => "reconnect" };
+    for (i, (line, obs)) in r.lines.iter().enumerate() {
+        *idx += 1;
+        out.count(&format!("sq.{}.wait{}.{}", kind, i + 1, obs.split(' ').nth(1).unwrap_or("?").split(':').next().unwrap()));
+        out.case(&line.replace("IDX", &idx.to_string()), &obs.replace("IDX", &idx.to_string()), true);
+    }
+}
+
 // ------------------------------------------------------------------------------------------
 // `race`: many fast rounds, waiter and signaller released together, start offset swept
 // ------------------------------------------------------------------------------------------
@@ -1055,9 +1176,21 @@ fn race_batch(out: &mut Out, rounds: Vec<RaceRound>, idx: &mut u64, until: Insta
         go.store(i + 1, Ordering::Release);
         spin(r.sdelay);
         let mut results = Vec::new();
+        let mut cur_file = r.setup.iter().rev().find_map(|o| if let Op::Adv(f) = o { Some(*f) } else { None }).unwrap_or(0);
+        let mut ack_lost: Option<String> = None;
         for (j, op) in r.ops.iter().enumerate() {
             if j > 0 { spin(r.mid_delay); }
             results.push(catch(|| apply(tc, op)).unwrap_or(OpRes::ResumeErr));
+            match op {
+                Op::Adv(f) => cur_file = *f,
+                // "a sufficient acknowledgement occurs": the call returned, so the ack must be in the books
+                // (only this thread changes the offsets)
+                Op::Ack(f, off) if *f == cur_file => {
+                    let (s1, a1) = catch(|| tc.offsets()).unwrap_or((0, 0));
+                    if a1 < (*off).min(s1) { ack_lost = Some(format!("record_ack({}, {}) returned, offsets() = ({}, {}): the acknowledgement was not recorded", f, off, s1, a1)); }
+                }
+                _ => {}
+            }
         }
         let (sent, acked) = catch(|| tc.offsets()).unwrap_or((0, 0));
         let cancelled = catch(|| tc.is_cancelled()).unwrap_or(true);
@@ -1081,6 +1214,7 @@ fn race_batch(out: &mut Out, rounds: Vec<RaceRound>, idx: &mut u64, until: Insta
                        tmo_ok: None, cleanup_missed, entry_want: vec![], watchdog_s: RACE_WATCHDOG.as_secs() };
         oracles(out, &c, &e, &line);
         let kind = match r.kind { Kind::Credit(_) => "credit", Kind::Reconnect => "reconnect" };
+        if let Some(d) = ack_lost { out.oracle_fail(&format!("wake.{}.ack_lost", kind), &d, &[line.clone()]); }
         out.count(&format!("race.{}.{}", kind, got.show().split(':').next().unwrap()));
         out.count(match (r.ops.len(), r.wdelay > 0) { (2, _) => "race.reentry", (_, true) => "race.signaller_first", _ => "race.waiter_entry" });
         if !must_return { out.count("race.not_enabling"); }
@@ -1143,7 +1277,7 @@ fn main() {
     let mut out = Out::new(&args.out);
     out.flush_each = true;
     let mut rng = Rng::new(args.seed);
-    out.rule = "one real thread in wait_for_credit/wait_for_reconnect (deadline 1 h) on a TransferControl whose window is full; the harness waits until /proc shows the waiter asleep (70%) or races its entry (30%); then 1-3 ops (ack: exact/insufficient/capped/stale/foreign, cancel, advance, resume: covered/uncovered/foreign, sent) from 1-3 threads with random yields/spins, signallers serialised by a harness lock (linearisation recorded) or free; values scaled by 1..2^40; 3/8 of the worlds sit on a boundary of the credit rule (window 0, chunk_len 0, chunk_len = window, oversized chunk) and enabling acks land in-flight exactly on the grant boundary or on 0. Oracles: condition true in the real final state => waiter returns within 10 s; never Timeout; returned value matches a state that occurred. `tmo` cases: 1-31 ms deadline, 0-3 ops that cannot satisfy the condition (many of them notify), spread over the wait, must return Timeout, not before the deadline. `imm` cases: deadline already passed at entry and condition already true: the matching value must be returned, not Timeout. `race` rounds: waiter and signaller released together from a spin barrier, start offset swept (signaller 0-200 spins later / waiter 0-64 spins later / a non-enabling wake-up then the enabling one 0-4000 spins apart), last op makes the condition true, 5 s watchdog. `multi` cases: 2-4 waiters of mixed kinds (credit with different chunk lengths, reconnect) parked on one control, 1-3 ops: every waiter whose condition holds in the final state must return, a staged resume must be taken by exactly one reconnect waiter, one cancel releases all the rest. `wd`: the registry's idle watchdog (200 ms idle timeout) cancels two idle transfers whose producers are parked: both must return Cancelled(transfer idle). `trk` cases: 300-400 ms deadline, a non-enabling ack every ~deadline/4, must return Timeout no later than deadline + 3 s. Non-trivial = the final state obliges the waiter to return, or a tmo case; distinct by op line (incl. observed order/outcome)".into();
+    out.rule = "one real thread in wait_for_credit/wait_for_reconnect (deadline 1 h) on a TransferControl whose window is full; the harness waits until /proc shows the waiter asleep (70%) or races its entry (30%); then 1-3 ops (ack: exact/insufficient/capped/stale/foreign, cancel, advance, resume: covered/uncovered/foreign, sent) from 1-3 threads with random yields/spins, signallers serialised by a harness lock (linearisation recorded) or free; values scaled by 1..2^40; 3/8 of the worlds sit on a boundary of the credit rule (window 0, chunk_len 0, chunk_len = window, oversized chunk) and enabling acks land in-flight exactly on the grant boundary or on 0. Oracles: condition true in the real final state => waiter returns within 10 s; never Timeout; returned value matches a state that occurred. `tmo` cases: 1-31 ms deadline, 0-3 ops that cannot satisfy the condition (many of them notify), spread over the wait, must return Timeout, not before the deadline. `imm` cases: deadline already passed at entry and condition already true: the matching value must be returned, not Timeout. `race` rounds: waiter and signaller released together from a spin barrier, start offset swept (signaller 0-200 spins later / waiter 0-64 spins later / a non-enabling wake-up then the enabling one 0-4000 spins apart), last op makes the condition true, 5 s watchdog. `multi` cases: 2-4 waiters of mixed kinds (credit with different chunk lengths, reconnect) parked on one control, 1-3 ops: every waiter whose condition holds in the final state must return, a staged resume must be taken by exactly one reconnect waiter, one cancel releases all the rest. `wd`: the registry's idle watchdog (200 ms idle timeout) cancels two idle transfers whose producers are parked: both must return Cancelled(transfer idle). `sq` cases: 2-3 waits one after the other on the SAME control: 1-2 short ones (1-12 ms) that must time out, then one with a fresh 40-120 ms deadline during which, in 3/5 of the cases, an enabling op arrives: never Timeout before that wait's own deadline, never Timeout when the op completed before it. `trk` cases: 300-400 ms deadline, a non-enabling ack every ~deadline/4, must return Timeout no later than deadline + 3 s. Non-trivial = the final state obliges the waiter to return, or a tmo case; distinct by op line (incl. observed order/outcome)".into();
     let mut idx = 0u64;
     if let Some(lines) = args.replay_ops() {
         for l in lines {
@@ -1161,6 +1295,15 @@ fn main() {
                         idx += 1;
                         let r = run_trickle(c.kind.clone(), c.window, c.setup.clone(), 300 + rng.below(101), rng.next());
                         log_trickle(&mut out, r, idx);
+                    }
+                    continue;
+                }
+                if l.starts_with("sq ") {
+                    for _ in 0..10 {
+                        if out.oracle_failures >= MAX_FAILURES { break; }
+                        let enabling = c.threads.iter().flatten().next().cloned();
+                        let r = run_sq(SqCase { kind: c.kind.clone(), window: c.window, setup: c.setup.clone(), enabling, n_timeouts: 1 + (rng.below(2) as u32) }, rng.next());
+                        log_sq(&mut out, r, &mut idx);
                     }
                     continue;
                 }
@@ -1183,6 +1326,12 @@ fn main() {
             let (kind, window, setup, d_ms) = trk_case(&mut rng);
             let seed = rng.next();
             std::thread::spawn(move || run_trickle(kind, window, setup, d_ms, seed))
+        }).collect();
+        let n_sq = if args.thorough() { 160 } else { 32 };
+        let sq: Vec<_> = (0..n_sq).map(|_| {
+            let c = gen_sq(&mut rng);
+            let seed = rng.next();
+            std::thread::spawn(move || run_sq(c, seed))
         }).collect();
         let wdog = { let seed = rng.next(); std::thread::spawn(move || run_watchdog_case(seed)) };
         // entry races
@@ -1226,6 +1375,9 @@ fn main() {
         }
         for h in trk {
             if let Ok(r) = h.join() { idx += 1; log_trickle(&mut out, r, idx); }
+        }
+        for h in sq {
+            if let Ok(r) = h.join() { log_sq(&mut out, r, &mut idx); }
         }
         if let Ok(r) = wdog.join() {
             for (sig, detail, line) in &r.fails { out.oracle_fail(sig, detail, &[line.clone()]); }
